@@ -314,7 +314,6 @@ func c01Neighbours(r *rt.Rec, rng *rand.Rand, n int) {
 	}
 }
 
-
 // c01Bulk: one AddTriples / RemoveTriples call with thousands of triples (sizes
 // at and around powers of two and round thousands): every triple of the batch
 // is stored (Exist, listing count), removing a batch removes exactly it, and
